@@ -636,6 +636,9 @@ type Device struct {
 	// HmacFailAt, when set, gives the device hardware-style HMAC objects (FlakyHmac) whose
 	// n-th Sum fails
 	HmacFailAt *int
+	// NoHmac384: the device is configured without an HMAC-SHA384 engine (TO2Config.HmacSha384 == nil),
+	// which is documented as legal for devices whose keys pair with SHA-256
+	NoHmac384 bool
 }
 
 // NewDevice creates a device using static key #keyIdx of the config's kind.
@@ -713,6 +716,9 @@ func (d *Device) TO2Config() fdo.TO2Config {
 	h256, h384 := d.Hmacs()
 	if d.HmacFailAt != nil {
 		h256, h384 = &FlakyHmac{Hash: h256, FailAt: *d.HmacFailAt}, &FlakyHmac{Hash: h384, FailAt: *d.HmacFailAt}
+	}
+	if d.NoHmac384 {
+		h384 = nil
 	}
 	return fdo.TO2Config{Cred: *d.Cred, HmacSha256: h256, HmacSha384: h384, Key: d.Key, PSS: d.Cfg.PSS(), Devmod: d.Devmod, DeviceModules: d.Modules,
 		KeyExchange: d.Cfg.Suite(), CipherSuite: d.Cfg.CipherID(), MaxServiceInfoSizeReceive: d.MTU, AllowCredentialReuse: d.Reuse}
